@@ -191,6 +191,8 @@ package common
 //@   hint return [run] @C02 forall j int :: rangeindex_0 + 1 - signers <= j && j < rangeindex_0 + 1 ==> has(keySigs, utxo.Keys[as.Signers[j] - offset])
 //@   hint return [wit] @C02 Witness2(rangeindex_0 + 1 - signers, signers) -- names the witness (lo, n) of [c02-agg] for the solver (Witness2 is constantly true)
 //@   loop 0 invariant [c02-lo] @C02 0 <= signers && signers <= rangeindex + 1
+//@   loop 0 invariant [c02-next] @C02 rangeindex >= 0 && rangeindex + 1 < len(as.Signers) ==> as.Signers[rangeindex] < as.Signers[rangeindex + 1] -- ground instance of the order
+//@   loop 0 invariant [c02-last] @C02 signers > 0 ==> rangeindex >= 0 && offset <= as.Signers[rangeindex]
 //@   loop 0 invariant [c02-before] @C02 forall j int :: 0 <= j && j < rangeindex + 1 - signers ==> as.Signers[j] < offset
 //@   loop 0 invariant [c02-run] @C02 forall j int :: rangeindex + 1 - signers <= j && j <= rangeindex ==>
 //@       offset <= as.Signers[j] && as.Signers[j] < offset + len(utxo.Keys) && has(keySigs, utxo.Keys[as.Signers[j] - offset])
